@@ -60,7 +60,7 @@ def sfMain (env : Env κ) (inp : Bytes) (sd : StateDef) (m : M κ) : StepRes κ 
     | none => dispatch env inp none sd.arms { m with c := { m.c with nextPos := m.c.nextPos + 1 + (inp.drop m.c.nextPos).length } }
   | none => dispatch env inp inp[m.c.nextPos]? sd.arms { m with c := { m.c with nextPos := m.c.nextPos + 1 } }
 
-theorem stateFn_eq (env : Env κ) (inp : Bytes) (m : M κ) :
+theorem stateFn_decomp (env : Env κ) (inp : Bytes) (m : M κ) :
     stateFn env inp m =
       match env.tbl.state? m.c.state with
       | none => (m, some (.err (.panic "unknown state")))
@@ -448,8 +448,6 @@ theorem MR.breakEoi {m₁ : M κ₁} {m₂ : M κ₂} (hm : MR R m₁ m₂) :
     · exact ⟨hadj, rfl⟩
     · exact ⟨⟨rfl, hadj.2.1, hadj.2.2⟩, rfl⟩
 
-theorem enterSeq_c (m : M κ₁) : (Model.enterSeq m).c = m.c := by unfold Model.enterSeq; split <;> rfl
-theorem leaveSeq_c (m : M κ₁) : (Model.leaveSeq m).c = m.c := by unfold Model.leaveSeq; split <;> rfl
 
 theorem MR.enterSeq {m₁ : M κ₁} {m₂ : M κ₂} (hm : MR R m₁ m₂) : MR R (enterSeq m₁) (enterSeq m₂) := by
   obtain ⟨hc, hr, hx⟩ := hm
@@ -605,7 +603,7 @@ theorem rel_sfMain (h : OpsRel ops₁ ops₂ inp R eG) (sd : StateDef) (ha : Arm
 
 theorem rel_stateFn (h : OpsRel ops₁ ops₂ inp R eG) (ht : EmitsChecked tbl = true) (m₁ : M κ₁) (m₂ : M κ₂)
     (hm : MR R m₁ m₂) : ResRel R eG (stateFn env₁ inp m₁) (stateFn env₂ inp m₂) := by
-  rw [stateFn_eq, stateFn_eq]
+  rw [stateFn_decomp, stateFn_decomp]
   simp only
   rw [hm.1]
   cases hsd : tbl.state? m₂.c.state with
